@@ -46,6 +46,10 @@ struct Req {
     head: bool,
     /// read the whole body (`false`: drop the response right after the head)
     read: bool,
+    /// the request is sent NON-persistent: 1 = `force_close()` (Connection: close), 2 = HTTP/1.0
+    /// (`head.connection_type()` = Close in both cases); 0 = keep-alive
+    #[serde(default)]
+    close: u8,
 }
 
 #[derive(Serialize, Deserialize, Clone, Debug)]
@@ -344,6 +348,11 @@ struct RunOut {
 async fn one_request(client: &awc::Client, port: u16, k: usize, r: &Req) -> Outcome {
     let url = format!("http://127.0.0.1:{}/r{}", port, k);
     let rq = if r.head { client.head(url) } else { client.get(url) };
+    let rq = match r.close {
+        1 => rq.force_close(),
+        2 => rq.version(awc::http::Version::HTTP_10),
+        _ => rq,
+    };
     match rq.send().await {
         Err(e) => Outcome::SendErr(class_send(&e)),
         Ok(resp) => {
@@ -677,6 +686,28 @@ fn oracle(sc: &Scenario, r: &RunOut) -> Result<(), String> {
             }
             continue;
         };
+        let blocks0 = blocks_of(&sc.conns[rq.a].get(ci).cloned().unwrap_or_default());
+        // reuse discipline: "returned to the pool only when ... on a persistent connection": no
+        // earlier request on this socket was sent non-persistent (Connection: close / HTTP/1.0),
+        // and no earlier response on it announced `connection: close`
+        for (pid, pblk) in r.served[rq.a][ci].iter() {
+            if *pid == k {
+                break;
+            }
+            if sc.reqs[*pid].close != 0 {
+                return Err(format!(
+                    "request {k} arrived on the socket that had carried request {pid}, which was sent non-persistent ({}): that connection was returned to the pool and reused",
+                    if sc.reqs[*pid].close == 1 { "force_close, Connection: close" } else { "HTTP/1.0" }
+                ));
+            }
+            if let Some((pb, _, _)) = blocks0.get(*pblk) {
+                if let Some((_, _, hs, _)) = split_head_ref(pb) {
+                    if hs.iter().any(|(n, v)| n == "connection" && v.eq_ignore_ascii_case("close")) {
+                        return Err(format!("request {k} arrived on the socket on which the response to request {pid} had announced `connection: close`"));
+                    }
+                }
+            }
+        }
         if !owner {
             if is_resp {
                 return Err(format!("request {k} was not answered by the server (it only opened a gate / arrived after the script) but the client returned {}: bytes of another exchange", show_outcome(out)));
@@ -767,7 +798,7 @@ fn v_body(b: &[u8]) -> V {
 }
 
 fn coq_case(sc: &Scenario, f9: bool, f17: bool) -> String {
-    let reqs = coq_list(&sc.reqs, |r| format!("mk_req {} {} {}", r.a, coq_bool(r.head), coq_bool(r.read)));
+    let reqs = coq_list(&sc.reqs, |r| format!("mk_req {} {} {} {}", r.a, coq_bool(r.head), coq_bool(r.read), coq_bool(r.close != 0)));
     let conns = coq_list(&sc.conns, |a| {
         coq_list(a, |c| {
             let evs: Vec<String> = c
@@ -902,7 +933,11 @@ struct Gen {
 }
 
 fn getr(a: usize, head: bool, read: bool) -> Req {
-    Req { a, head, read }
+    Req { a, head, read, close: 0 }
+}
+/// a request sent non-persistent (1 = force_close, 2 = HTTP/1.0)
+fn getc(read: bool, close: u8) -> Req {
+    Req { a: 0, head: false, read, close }
 }
 
 /// spare connection scripts: plain keep-alive `ok` responses
@@ -1014,6 +1049,72 @@ fn gen_sequence(rng: &mut Rng, maxb: usize) -> Gen {
         conns.push(evs);
     }
     Gen { sc: Scenario { limit: rng.range(1, 3) as usize, conc: false, reqs, conns: vec![conns] }, tags }
+}
+
+/// family J: a request sent NON-persistent (force_close = `Connection: close`, or HTTP/1.0) whose
+/// answer claims `connection: keep-alive` (or says nothing) and whose server keeps the socket open,
+/// followed by further requests to the same authority: they must arrive on a NEW socket (the
+/// codec takes only a downgrade from the peer; release needs a persistent REQUEST)
+fn gen_nonpersistent(rng: &mut Rng) -> Gen {
+    let mut tags = vec!["family:nonpersistent".to_string()];
+    let n = rng.range(2, 4) as usize;
+    let pos = if n > 2 && rng.chance(1, 2) { 1 } else { 0 };
+    let close = if rng.chance(2, 3) { 1u8 } else { 2 };
+    tags.push(format!("reqconn:{}", if close == 1 { "force-close" } else { "http10" }));
+    tags.push(format!("reqconn:at-{pos}"));
+    let mut reqs = vec![];
+    let mut evs = vec![];
+    for i in 0..n {
+        evs.push(Ev::W);
+        if i != pos {
+            reqs.push(getr(0, false, true));
+            evs.push(d(OK2));
+            continue;
+        }
+        let peer = match rng.below(5) {
+            0 => None,
+            1 => Some("Keep-Alive"),
+            _ => Some("keep-alive"),
+        };
+        tags.push(format!("peer:{}", if peer.is_some() { "keep-alive" } else { "silent" }));
+        let (bytes, t, bodyless): (Vec<u8>, &str, bool) = match rng.below(6) {
+            0 => {
+                let (h, w) = wire(rng, 200, true, &Fr::Cl, b"", peer);
+                ([h, w].concat(), "cl0", true)
+            }
+            1 => {
+                let (h, _) = wire(rng, 204, true, &Fr::NoLen, b"", peer);
+                (h, "204", true)
+            }
+            2 => {
+                let b = rand_body(rng, 40);
+                let (h, w) = wire(rng, 200, false, &Fr::Cl, &b, peer);
+                ([h, w].concat(), "http10-cl", false)
+            }
+            3 => {
+                let b = rand_body(rng, 40);
+                let (h, w) = wire(rng, 200, true, &Fr::Chunked, &b, peer);
+                ([h, w].concat(), "chunked", false)
+            }
+            _ => {
+                let b = rand_body(rng, 40);
+                let (h, w) = wire(rng, 200, true, &Fr::Cl, &b, peer);
+                ([h, w].concat(), "cl", false)
+            }
+        };
+        tags.push(format!("resp:{t}"));
+        // dropping the body early closes the connection anyway: only for body-less answers
+        let read = !(bodyless && rng.chance(1, 3));
+        reqs.push(getc(read, close));
+        if rng.chance(1, 2) {
+            evs.push(d(&bytes));
+        } else {
+            evs.extend(segs(rng, &bytes));
+        }
+    }
+    // the server is ready to answer more on the same socket (it never closes)
+    evs.extend(spare(2));
+    Gen { sc: Scenario { limit: rng.range(1, 2) as usize, conc: false, reqs, conns: vec![vec![evs, spare(n), spare(n), spare(n)]] }, tags }
 }
 
 /// family C: interim responses before the final one
@@ -1376,7 +1477,8 @@ fn main() {
             let mut r = rng.fork();
             let maxb = if thorough && i % 10 == 0 { 20000 } else { 300 };
             let g = match r.below(100) {
-                0..=44 => gen_sequence(&mut r, maxb),
+                0..=37 => gen_sequence(&mut r, maxb),
+                38..=44 => gen_nonpersistent(&mut r),
                 45..=56 => gen_interim(&mut r),
                 57..=64 => gen_extra_or_stall(&mut r),
                 65..=71 => gen_two_auth(&mut r),
